@@ -4,6 +4,7 @@ package main
 
 import (
 	"fmt"
+	"math/big"
 	"go/constant"
 	"go/token"
 	"go/types"
@@ -28,6 +29,8 @@ type Engine struct {
 	litOf       map[string]string // array const -> literal
 	needBand    bool
 	needStrLess bool
+	needVarint  bool
+	needDecval  bool
 	typeIDs     map[string]int
 	typeNames   []string
 	globalRefs  map[*ssa.Global]int
@@ -39,6 +42,7 @@ type Engine struct {
 	mutGlobals  map[*ssa.Global]bool // globals written outside init
 	globArrays  map[int][]string     // global ref -> known constant contents
 	recDecls    map[string]string    // recursive spec function declarations
+	recAxioms   map[string]string
 	ufDecls     map[string]string    // other uninterpreted functions
 	sentinel    map[*ssa.Global]int
 }
@@ -59,7 +63,7 @@ func loadEngine(repo string, contractFiles []string) (*Engine, error) {
 		litArr: map[string]string{}, litOf: map[string]string{}, typeIDs: map[string]int{}, globalRefs: map[*ssa.Global]int{},
 		funcIDs: map[*ssa.Function]int{}, knownNonNil: map[string]bool{}, boxed: map[string]Val{}, implFns: map[string]bool{},
 		srcLines: map[string][]string{}, mutGlobals: map[*ssa.Global]bool{}, globArrays: map[int][]string{},
-		recDecls: map[string]string{}, ufDecls: map[string]string{}, sentinel: map[*ssa.Global]int{}}
+		recDecls: map[string]string{}, recAxioms: map[string]string{}, ufDecls: map[string]string{}, sentinel: map[*ssa.Global]int{}}
 	for fn := range ssautil.AllFunctions(prog) {
 		if fn.Pkg == e.pkg {
 			e.funcs[funcKey(fn)] = fn
@@ -88,6 +92,12 @@ func (e *Engine) strLit(s string) string {
 
 func (e *Engine) typeID(t types.Type) int {
 	k := types.TypeString(t, nil)
+	switch k {
+	case "byte":
+		k = "uint8"
+	case "rune":
+		k = "int32"
+	}
 	if id, ok := e.typeIDs[k]; ok {
 		return id
 	}
@@ -419,6 +429,31 @@ func (e *Engine) prelude() string {
 	}
 	b.WriteString("(declare-fun rid (Int Int) Int)\n")
 	fmt.Fprintf(&b, "(declare-fun rdS (Int) %s)\n", sAI)
+	b.WriteString("(assert (forall ((r Int) (k Int)) (! (and (<= 0 (select (rdS r) k)) (<= (select (rdS r) k) 255)) :pattern ((select (rdS r) k)))))\n")
+	if e.needVarint {
+		// little-endian base-128 value of the n-byte varint at a[o..]
+		var terms []string
+		p := "1"
+		for j := 0; j < 10; j++ {
+			bj := fmt.Sprintf("(select a (+ o %d))", j)
+			terms = append(terms, fmt.Sprintf("(ite (< %d n) (* %s (ite (< %d (- n 1)) (- %s 128) %s)) 0)", j, p, j, bj, bj))
+			p = mulDec(p, 128)
+		}
+		fmt.Fprintf(&b, "(define-fun varintval ((a %s) (o Int) (n Int)) Int (+ %s))\n", sAI, strings.Join(terms, " "))
+	}
+	if e.needDecval {
+		// decimal value of the n digits at a[o..] (n <= 18), Horner form
+		var sb strings.Builder
+		fmt.Fprintf(&sb, "(define-fun decval ((a %s) (o Int) (n Int)) Int ", sAI)
+		sb.WriteString("(let ((v0 0)) ")
+		for j := 0; j < 18; j++ {
+			fmt.Fprintf(&sb, "(let ((v%d (ite (< %d n) (+ (* 10 v%d) (- (select a (+ o %d)) 48)) v%d))) ", j+1, j, j, j, j)
+		}
+		sb.WriteString("v18")
+		sb.WriteString(strings.Repeat(")", 19))
+		sb.WriteString(")\n")
+		b.WriteString(sb.String())
+	}
 	var fns []string
 	for n := range e.implFns {
 		fns = append(fns, n)
@@ -432,6 +467,9 @@ func (e *Engine) prelude() string {
 	}
 	for _, n := range sortedKeys(e.recDecls) {
 		b.WriteString(e.recDecls[n] + "\n")
+	}
+	for _, n := range sortedKeys(e.recAxioms) {
+		b.WriteString(e.recAxioms[n] + "\n")
 	}
 	return b.String()
 }
@@ -448,4 +486,11 @@ func (e *Engine) srcLine(pos token.Pos) string {
 		return "?"
 	}
 	return strings.Join(strings.Fields(lines[p.Line-1]), " ")
+}
+
+func mulDec(s string, m int64) string {
+	x := new(big.Int)
+	x.SetString(s, 10)
+	x.Mul(x, big.NewInt(m))
+	return x.String()
 }
